@@ -434,3 +434,26 @@ shapes! { body_move;
     c02_l1_move_hr = [Hole, Region];
 }
 
+
+// ---- builders used by world.rs ----
+pub(crate) fn put_hole(l: &mut Layout, start: usize, size: usize) {
+    l.insert_hole(start, size);
+}
+pub(crate) fn put_pending(l: &mut Layout, start: usize, size: usize) {
+    l.pending_holes.verif_push_back(start, size);
+}
+pub(crate) fn put_reserved(l: &mut Layout, start: usize, size: usize) {
+    l.start_to_reserved.verif_push_back(start, size);
+}
+pub(crate) fn n_reserved(l: &Layout) -> usize {
+    l.start_to_reserved.len()
+}
+pub(crate) fn n_pending(l: &Layout) -> usize {
+    l.pending_holes.len()
+}
+pub(crate) fn n_holes(l: &Layout) -> usize {
+    l.start_to_hole.len()
+}
+pub(crate) fn n_regions(l: &Layout) -> usize {
+    l.start_to_region.len()
+}
